@@ -81,7 +81,7 @@ pub fn cells() -> Vec<(&'static str, Vec<f64>)> {
     for p in [[0., 1.], [-2., 6.], [1e3, 1e3 + 1e-3], [5., 5.], [-1e3, 1e3]] {
         c.push(("Uniform", p.to_vec()));
     }
-    for p in [[0., 1.], [-2., 6.], [-1000., 1000.], [7., 7.], [0., 1099511627776.], [-5., -3.]] {
+    for p in [[0., 1.], [-2., 6.], [-1000., 1000.], [7., 7.], [0., 1099511627776.], [-5., -3.], [0., 6917529027641081856.], [-1e18, 1e18]] {
         c.push(("DiscreteUniform", p.to_vec()));
     }
     for l in [1e-3, 1., 4., 1e3] {
@@ -103,6 +103,9 @@ pub fn cells() -> Vec<(&'static str, Vec<f64>)> {
         for s in [1e-6, 1e-3, 1., 1e4] {
             c.push(("MVN", vec![d as f64, s]));
         }
+    }
+    for d in [16., 33.] {
+        c.push(("MVN", vec![d, 1.]));
     }
     c
 }
@@ -226,8 +229,26 @@ pub fn eps_dkw(n: usize) -> f64 {
     ((2.0f64 / 1e-12).ln() / (2.0 * n as f64)).sqrt()
 }
 
+fn next_up(x: f64) -> f64 {
+    if x.is_nan() || x == f64::INFINITY {
+        return x;
+    }
+    if x == 0.0 {
+        return f64::from_bits(1);
+    }
+    let b = x.to_bits();
+    f64::from_bits(if x > 0.0 { b + 1 } else { b - 1 })
+}
+fn next_down(x: f64) -> f64 {
+    -next_up(-x)
+}
+
 /// Lower bound of sup |F_n - F| evaluated at (a stride of) the order statistics: sound (never
-/// exceeds the true sup), within stride/n of it. `left` = F(x-) (== F for continuous laws).
+/// exceeds the true sup), within stride/n of it. `left` = F(x-) for laws with atoms.
+/// For continuous laws a returned double stands for the reals within one ulp of it (the sampler
+/// rounds), so F_n(v) is compared with the interval [F(v - ulp), F(v + ulp)] and F_n(v-) with
+/// [F(v - 2ulp), F(v)]: where the density is unbounded at an edge of the support (Beta with a
+/// shape < 1 at 1.0) the mass inside one ulp is visible at n = 2e6 and is not a sampler defect.
 pub fn dkw_distance(samples: &mut [f64], cdf: &dyn Fn(f64) -> f64, left: &dyn Fn(f64) -> f64, discrete: bool) -> (f64, f64) {
     let n = samples.len();
     samples.sort_unstable_by(|a, b| a.total_cmp(b));
@@ -236,6 +257,15 @@ pub fn dkw_distance(samples: &mut [f64], cdf: &dyn Fn(f64) -> f64, left: &dyn Fn
     let mut at = f64::NAN;
     let mut i = 0usize;
     let mut groups = 0usize;
+    let dist = |x: f64, lo: f64, hi: f64| -> f64 {
+        if x < lo {
+            lo - x
+        } else if x > hi {
+            x - hi
+        } else {
+            0.0
+        }
+    };
     while i < n {
         let v = samples[i];
         let mut j = i + 1;
@@ -243,8 +273,13 @@ pub fn dkw_distance(samples: &mut [f64], cdf: &dyn Fn(f64) -> f64, left: &dyn Fn
             j += 1;
         }
         if groups % stride == 0 || j == n {
-            let d1 = (j as f64 / n as f64 - cdf(v)).abs();
-            let d2 = (i as f64 / n as f64 - left(v)).abs();
+            let (d1, d2) = if discrete {
+                ((j as f64 / n as f64 - cdf(v)).abs(), (i as f64 / n as f64 - left(v)).abs())
+            } else {
+                let (f0, fm, fp) = (cdf(v), cdf(next_down(v)), cdf(next_up(v)));
+                let fmm = cdf(next_down(next_down(v)));
+                (dist(j as f64 / n as f64, fm.min(f0), fp.max(f0)), dist(i as f64 / n as f64, fmm.min(f0), f0))
+            };
             let d = d1.max(d2);
             if d > worst {
                 worst = d;
@@ -368,9 +403,17 @@ impl Prop for C03 {
             (n, script)
         } else {
             let base_n = if tier == Tier::Quick { 200_000 } else { 4_000_000 };
-            let base_n = if *law == "MVN" { base_n / 4 } else { base_n };
-            // bulk sizes that are not round numbers every other visit
-            (base_n + if visit % 2 == 1 { 7 + r.below(990) as usize } else { 0 }, vec![])
+            // the last fault-free visit of every cell is a deep one (10x the draws, band / sqrt(10))
+            let deep = visit == clean_visits - 1;
+            let base_n = if deep { base_n * 10 } else { base_n };
+            let base_n = if *law == "MVN" { base_n / (4 * (base[0] as usize).max(4) / 4) } else { base_n };
+            // bulk sizes: round numbers, non-round numbers, and multiples of a power-of-two block
+            let n = match visit % 4 {
+                1 => base_n + 7 + r.below(990) as usize,
+                3 => (base_n / 4096 + 1) * 4096,
+                _ => base_n,
+            };
+            (n, vec![])
         };
         let api = match (visit + run) % 3 {
             0 => Api::Loop,
@@ -518,7 +561,7 @@ impl Prop for C03 {
                 v.push(k);
             }
         }
-        for k in ["api.sample_loop", "api.sample_n", "api.sample_matrix", "seeding.seed_clock", "seeding.seed_small", "seeding.seed_set", "config.fault_free", "config.fault_injecting", "config.reached_by_update", "config.off_grid", "fault.rng_zero", "fault.rng_max", "fault.rng_tiny", "fault.rng_half", "fault.rng_tail", "fault.rng_streak", "check.dkw", "check.mvn_projection", "dpc.Normal.1", "dpc.Normal.2", "dpc.Normal.3+", "dpc.Poisson.4+", "dpc.Binomial.4+", "dpc.Gamma.4+"] {
+        for k in ["api.sample_loop", "api.sample_n", "api.sample_matrix", "seeding.seed_clock", "seeding.seed_small", "seeding.seed_set", "config.fault_free", "config.fault_injecting", "config.reached_by_update", "config.off_grid", "fault.rng_zero", "fault.rng_max", "fault.rng_tiny", "fault.rng_half", "fault.rng_tail", "fault.rng_streak", "check.dkw", "check.mvn_projection", "check.serial_independence", "dpc.Normal.1", "dpc.Normal.2", "dpc.Normal.3+", "dpc.Poisson.4+", "dpc.Binomial.4+", "dpc.Gamma.4+"] {
             v.push(k.to_string());
         }
         v
@@ -650,9 +693,41 @@ fn exec_1d(case: &Case, law: &str, p: &[f64], reg: &str, st: &mut Stats, h: &mut
     if faulty || xs.len() < 100 {
         return None;
     }
-    // atoms in a continuous law
     let discrete = is_discrete(law);
     let point = is_point_mass(law, p);
+    // serial independence of the n draws: for disjoint pairs at lag 1, 2 and n/2 the events
+    // "below the median" must be independent (each pair: probability 1/4; Hoeffding, alpha 1e-12 / 3)
+    if !discrete && !point {
+        let below: Vec<bool> = xs.iter().map(|x| ref_cdf(law, p, *x) < 0.5).collect();
+        let nn = below.len();
+        st.inc("check.serial_independence");
+        for lag in [1usize, 2, nn / 2] {
+            if lag == 0 || 2 * lag > nn {
+                continue;
+            }
+            // disjoint pairs (i, i+lag): blocks of 2*lag, first half paired with second half
+            let mut m = 0u64;
+            let mut both = 0u64;
+            let mut blk = 0usize;
+            while blk + 2 * lag <= nn {
+                for i in blk..blk + lag {
+                    m += 1;
+                    if below[i] && below[i + lag] {
+                        both += 1;
+                    }
+                }
+                blk += 2 * lag;
+            }
+            if m >= 1000 {
+                let eps = ((6.0f64 / 1e-12).ln() / (2.0 * m as f64)).sqrt() + 2.0 / m as f64;
+                let frac = both as f64 / m as f64;
+                if (frac - 0.25).abs() > eps {
+                    return mk("independence", "serial_dependence", format!("{}({:?}), n = {}: draws i and i+{} are both below the median in {:.4} of {} disjoint pairs; independent draws give 0.25 +- {:.4}", law, p, nn, lag, frac, m, eps));
+                }
+            }
+        }
+    }
+    // atoms in a continuous law
     let mut sorted = xs;
     let pv = p.to_vec();
     let lawc = law.to_string();
